@@ -1697,15 +1697,12 @@ PARSE_RESULT_PANICS = {
     ("FunctionSig::from_ty", "Item::parse", ""): "parameter declaration of a function prototype",
     ("ObjCInterface::from_ty", "FunctionSig::from_ty", "CXCursor_ObjCClassMethodDecl|CXCursor_ObjCInstanceMethodDecl"): "ObjC method declarations always have a signature",
     ("Type::from_clang_ty", "CompInfo::from_ty", "CXType_Invalid|CXType_Unexposed"): "guarded by a declaration kind check just before",
-    ("Type::from_clang_ty", "Item::from_ty", "CXType_DependentSizedArray|CXType_VariableArray"): "array element types are complete object types",
-    ("Type::from_clang_ty", "Item::from_ty", "CXType_IncompleteArray"): "array element types are complete object types",
     ("Type::from_clang_ty", "Enum::from_ty", "CXType_Enum"): "the type kind was just checked to be an enum",
     ("Type::from_clang_ty", "CompInfo::from_ty", "CXType_Record"): "the type kind was just checked to be a record",
-    ("Type::from_clang_ty", "Item::from_ty", "CXType_ConstantArray"): "array element types are complete object types",
 }
 
 
-@RULES.rule("R12.9", "a construct bindgen cannot model is propagated as ParseError (opaque fallback), not unwrapped — frozen inventory", floor=9)
+@RULES.rule("R12.9", "a construct bindgen cannot model is propagated as ParseError (opaque fallback), not unwrapped — frozen inventory", floor=6)
 def r12_9(rep):
     """`Item::from_ty(..)?` is the entry to the opaque-fallback chain (resolve_typerefs / from_ty_or_ref_with_id turn the
     error into an opaque type).  Unwrapping such a result turns a header clang accepts (e.g. a vector of `_BitInt(32)`)
@@ -2605,3 +2602,54 @@ def r12_24(rep):
     rep.check(ok, "own-referent-checked", "`self.referenced()` is examined before the children are visited" if ok else
               "the expression's own referent is never examined: `int x : N;` (a bare reference to the parameter, no children) passes as "
               "non-dependent and libclang's evaluator crashes on it", b.loc(b.root))
+
+
+PANIC_MACROS = {"assert", "assert_eq", "assert_ne", "panic", "unreachable", "unimplemented", "todo"}
+
+
+@RULES.rule("R12.25", "the failure branch of a parse step never asserts why it failed", floor=3)
+def r12_25(rep):
+    """`Item::from_ty`, `Item::parse`, `Type::from_clang_ty` .. return `Err(ParseError)` for whatever bindgen cannot model.  The caller
+    may propagate that, skip the item or fall back to an opaque type; it must not assert what the reason was.  `Var::parse` asserted
+    that only `auto` / unexposed types fail, which aborted on `_BitInt(7) garr[3];` once arrays of such types started to propagate
+    their element's error instead of panicking themselves.  Per `Err(..)` arm of a match over a `Result<_, ParseError>`: no panicking
+    macro and no unwrap inside."""
+    from hir import pat_variants as _pv
+    prog = rep.prog
+    n = 0
+    per = {}
+    for p, b in sorted(prog.bodies.items()):
+        if not (b.file.startswith("bindgen/ir/") or b.file.startswith("bindgen/parse")):
+            continue
+        for m in b.nodes:
+            if m["k"] != "Match" or "ParseError" not in (b.ty(m["scrut"]) or ""):
+                continue
+            for a in m["arms"]:
+                vs = _pv(a["pat"])
+                if not any(v.endswith("::Err") or v.endswith("Result::Err") for v in vs):
+                    continue
+                n += 1
+                bad = None
+                for x in b.walk(a["body"]):
+                    mn = b.macro_name(x)
+                    if mn in ("panic", "unreachable", "unimplemented", "todo") and not any(b.macro_name(y) in ("assert", "assert_eq", "assert_ne", "debug_assert") for y in b.ancestors(x)):
+                        bad = mn + "!"
+                        break
+                    if mn in ("assert", "assert_eq", "assert_ne") and x["k"] == "If":
+                        # an assertion about WHAT failed (the kind of the type / cursor); bookkeeping assertions (begin/finish_parsing
+                        # balance, R12.5) are not about the cause
+                        src = b.canon(x["cond"], 8)
+                        if "clang_sys::CX" in src or "::kind(" in src or "ParseError" in src:
+                            bad = mn + "! on the kind"
+                            break
+                    if x["k"] == "MCall" and x.get("name") in ("unwrap", "expect") and "ParseError" in (b.ty(x["recv"]) or ""):
+                        bad = "." + x["name"] + "()"
+                        break
+                fn = p.split("::")[-1]
+                k0 = "err-arm-does-not-assert@%s" % fn
+                per[k0] = per.get(k0, 0) + 1
+                key = k0 if per[k0] == 1 else "%s#%d" % (k0, per[k0] - 1)
+                rep.check(bad is None, key, "propagates / recovers" if bad is None else
+                          "the `Err` arm contains `%s`: a construct that merely cannot be modelled aborts the whole run when the belief about "
+                          "the cause is wrong" % bad, b.loc(a["body"]))
+    rep.need(n >= 3, "`Err(..)` arms of matches over parse results in ir/")
